@@ -221,7 +221,7 @@ func dklsLine[P curves.Point[P, B, S], B algebra.PrimeFieldElement[B], S algebra
 	d = d.withHash("dkls" + mult + np.Name + idsName(q.ids) + api + msgClass)
 	ev := newSignEv("dkls23-"+mult, "ecdsa", d.g.name, np, km.src, q, api, msgClass)
 	ev["hash"] = d.hashName()
-	defer func() { w.Emit(ev) }()
+	defer emitSign(ev)
 	if km.err != "" {
 		ev["keyErr"] = km.err
 		return
@@ -529,7 +529,7 @@ func l17Line[P curves.Point[P, B, S], B algebra.PrimeFieldElement[B], S algebra.
 	d = d.withHash("l17" + np.Name + idsName(q.ids) + api + msgClass + string(comp))
 	ev := newSignEv("lindell17", string(comp), d.g.name, np, key.src, q, api, msgClass)
 	ev["hash"] = d.hashName()
-	defer func() { w.Emit(ev) }()
+	defer emitSign(ev)
 	if key.err != "" {
 		ev["keyErr"] = key.err
 		return
